@@ -178,7 +178,7 @@ def replay_row(data):
     return (not ok), "atom with Z=%d is bound to a table row other than %d" % (z, z - 1)
 
 
-REPLAY = {"dens": replay_density, "src": replay_source, "row": replay_row}
+REPLAY = {"dens": replay_density, "src": replay_source, "row": replay_row, "wrap": replay_density}
 
 
 # ------------------------------------------------------------------------------------- run
